@@ -244,11 +244,9 @@ pub fn gen_train_types(rng: &mut Rng, max_cars: u32, max_types: usize) -> TrainS
     }
     let n_units = rng.usize(2, 6);
     let consist: Vec<ConUnit> = (0..n_units)
-        .map(|_| match rng.below(11) {
+        .map(|_| match rng.below(10) {
             0..=5 => ConUnit::Conv,
             6 | 7 => ConUnit::Bel,
-            // the shipped hybrid unit (engine + battery on one locomotive)
-            10 => ConUnit::Gen(pt::LocoSpec { kind: pt::KindSpec::Hybrid, aux_offset: 0.0, aux_coeff: 0.0 }),
             _ => {
                 // generated ratings / engine map / battery, but the shipped (flat) generator and drivetrain maps:
                 // with curved maps the published consist limit is not achievable and the train controller,
@@ -270,6 +268,13 @@ pub fn gen_train_types(rng: &mut Rng, max_cars: u32, max_types: usize) -> TrainS
             }
         })
         .collect();
+    // one train in twelve carries the shipped hybrid unit (engine + battery on one locomotive); speed-limited runs
+    // with it mostly end early (its engine refuses the controller's ramp), so it is kept rare
+    let mut consist = consist;
+    if rng.chance(0.08) {
+        let k = rng.usize(0, consist.len() - 1);
+        consist[k] = ConUnit::Gen(pt::LocoSpec { kind: pt::KindSpec::Hybrid, aux_offset: 0.0, aux_coeff: 0.0 });
+    }
     let cars_mass: f64 = cars.iter().map(|c| (c.mass_base + c.mass_freight) * c.n as f64).sum();
     let cars_len: f64 = cars.iter().map(|c| c.length * c.n as f64).sum();
     TrainSpec {
@@ -1413,13 +1418,15 @@ struct Runner {
     /// consecutive steps spent at rest outside the stopping window (authority ahead, not moving)
     rest_outside: usize,
     stuck: bool,
+    /// inside the final walk (after the last authority has been delivered)
+    final_walk: bool,
 }
 
 impl Runner {
     fn new(mut sim: SpeedLimitTrainSim, case: &Case, dt: f64) -> Self {
         sim.state.dt = dt * uc::S;
         let tr = Traj { states: vec![sim.state], con: vec![sim.loco_con.state], loco_sums: vec![loco_sums(&sim.loco_con)], auth_end: vec![0.0], delivered: vec![0] };
-        Runner { sim, tr, al: Align { i: 1, len: 0, interval: case.save_interval }, dt, k: 0, done: 0, ci: 0, ii: 0, arrived: false, terminated: false, budget: 60_000, rest_outside: 0, stuck: false }
+        Runner { sim, tr, al: Align { i: 1, len: 0, interval: case.save_interval }, dt, k: 0, done: 0, ci: 0, ii: 0, arrived: false, terminated: false, budget: 60_000, rest_outside: 0, stuck: false, final_walk: false }
     }
     fn align(&self, ctx: &mut Ctx, after: &str) {
         let s = &self.sim;
@@ -1498,7 +1505,7 @@ impl Runner {
                 // must start moving again; the shipped walk() would loop forever here
                 if self.sim.state.speed.value == 0.0 && self.go_on() {
                     self.rest_outside += 1;
-                    if self.rest_outside > 900 && self.ci >= case.crashes.len() {
+                    if self.rest_outside > 900 && self.ci >= case.crashes.len() && self.final_walk {
                         let st = &self.sim.state;
                         let end = self.sim.offset_end().value;
                         let mut sg = sig1("at_rest", true);
@@ -1526,7 +1533,28 @@ impl Runner {
         let remaining = (self.sim.offset_end().value - self.sim.state.offset.value).max(0.0);
         let bound = 4 * remaining as usize + 3000;
         let mut n = 0usize;
+        self.final_walk = true;
         while self.go_on() {
+            // At rest, controller target zero, outside the stopping window, nothing left to deliver: this state is
+            // final (the target depends on position and speed only). What the shipped loop makes of it is the
+            // verdict: it must end the run with a descriptive error (it used to spin forever here - a regression
+            // shows as a hang, which the watchdog turns into a violation).
+            // (n >= 1: the target must have been computed on the path as it is now, not before the last extension)
+            if n >= 1 && self.sim.state.speed.value == 0.0 && self.sim.state.speed_target.value == 0.0 && self.ci >= case.crashes.len() && self.ii >= case.interval_changes.len() {
+                ctx.hit("probe.walk.at_rest_short_of_window_with_zero_target");
+                let mut probe = self.sim.clone();
+                return match probe.walk() {
+                    Err(e) => {
+                        self.terminated = true;
+                        Err(e)
+                    }
+                    Ok(()) => {
+                        let st = &probe.state;
+                        ctx.violate("C03", "limit_run", "Ok => at rest inside the stopping window", format!("shipped walk() returned Ok from rest at offset {} with the stopping window starting at {}", st.offset.value, probe.offset_end().value - FT1000));
+                        Ok(())
+                    }
+                };
+            }
             if !self.step(ctx, case)? {
                 if self.stuck {
                     return Ok(());
@@ -1593,10 +1621,12 @@ impl Runner {
                     // run until this delivery is due
                     loop {
                         let (off, end, v) = (self.sim.state.offset.value, self.sim.offset_end().value, self.sim.state.speed.value);
+                        // (a train standing short of the end of its authority for two minutes gets the next delivery
+                        // anyway - a dispatcher delivers by the clock, not by where the train chose to stop)
                         let due = match a.when {
                             When::Dist(d) => end - off <= d,
                             When::StoppedFor(n) => !self.go_on() && stopped_for >= n,
-                        };
+                        } || self.rest_outside as f64 * self.dt > 120.0;
                         if due {
                             break;
                         }
